@@ -166,7 +166,7 @@ class Run:
         topo = self.sc['topo']
         if topo[0] == 'attached':
             n = topo[1]
-            self.k.spawn('server.main', lambda: A.start_attached_server(n, port=7472, worker_port=7474), node='server')
+            self.net.spawn_process('server', lambda: A.start_attached_server(n, port=7472, worker_port=7474))
         else:
             sizes = topo[1]
 
@@ -178,8 +178,8 @@ class Run:
                 s = D.DetachedServer([('sim', 8000 + i) for i in range(len(sizes))], port=7472)
                 s.run()
             for i, nw in enumerate(sizes):
-                self.k.spawn('man%d.main' % i, manager, (i, nw), node='man%d' % i)
-            self.k.spawn('server.main', server, node='server')
+                self.net.spawn_process('man%d' % i, manager, (i, nw))
+            self.net.spawn_process('server', server)
 
     # ---- clients
     def client(self, ci, script, is_probe=False):
